@@ -364,6 +364,13 @@ func genC06(r *Rng, tier string) *World {
 		w.Family = "values"
 		nv, deep := injectExotic(r, v, 0)
 		op.Input = nv
+		// %v of these prints an address: what the library then computes (a string holding that address) is
+		// allocation-dependent by nature, so such worlds are replayed by verdict only, not by event digest
+		for _, vol := range []string{"x:ptr_ptr_string", "x:ptr_ptr_ptr_int", "x:chan", "x:func", "x:ptr_nil_iface", "x:reflect_value"} {
+			if strings.Contains(nv.String(), vol) {
+				w.Params["volatile"] = 1
+			}
+		}
 		op.Arg = "raw"
 		if deep {
 			w.Params["deep"] = 1
@@ -405,6 +412,7 @@ func genC06(r *Rng, tier string) *World {
 			io.Method, io.BodyKind = Pick(r, []string{"GET", "HEAD"}), "none"
 			io.Query = Pick(r, hostileForm)
 			io.NilBody = r.P(0.5)
+			io.NoBody = !io.NilBody && r.P(0.5)
 		default:
 			op.Front = "zenv"
 			op.Input = envRecord(r, root)
@@ -450,6 +458,7 @@ func runC06(x *X) *Violation {
 	w := x.W
 	x.BuildSchemas()
 	x.FreshRun("r/")
+	x.OpaqueResults = w.Family == "values"
 	for i := range w.Tasks[0] {
 		op := &w.Tasks[0][i]
 		if op.Kind != "parse" {
